@@ -51,6 +51,9 @@ CHECKS = {
  "C14": ("explicit-state exploration of load histories on the real API, no merging: every history of length <= 3 (thorough 4) over a menu of valid and failing documents (8 failure classes x 5 kinds of preceding valid content, AddTypes route) from 3 initial roots, plus every reader-fault offset of every valid document; before/after and failure-deleted differential oracles over SDL, canonical read-back, introspection and fixed requests",
          "Every history within the bound is replayed on a fresh root; each failing load must leave every observable unchanged and the final state must equal that of the history with the failing loads deleted.",
          "Observables are those reachable through the public API; quick restricts length-3 histories to those starting in the first 12 menu entries.", "5.14"),
+ "C17": ("bounded-exhaustive enumeration of schemas (C13 accepting side) x introspection selections (full __schema in 3 includeDeprecated modes; __type for every name and an unknown name, literal and variable) x application strategies (reflection, Resolver, installed root resolver) on the real resolver against an independent reference computed from the abstract schema",
+         "Every (schema, strategy, query) in the bound is executed and compared field by field with refintrospect; answers must also agree across strategies since each is compared with the same reference.",
+         "Wrapper types: only kind and ofType demanded; string defaults may be reported raw (pinned); default deprecation reason with or without embedded quotes.", "5.17"),
 }
 
 NOT_YET = {}
